@@ -53,6 +53,13 @@ fn step_bounds(prog: &Prog, pos: Vec<usize>, acc: &mut Acc, label: &str) {
     let mut cfg = rec::base_config();
     cfg.max_steps = shuttle::MaxSteps::None;
     let base = run_with(prog, PosScheduler::new(pos.clone(), 1), cfg.clone());
+    if std::env::var("VERIF_DEBUG_C13").is_ok() && label.starts_with("hand:") {
+        println!("DEBUG {label}: base term {:?} execs {} steps {:?}", base.term, base.execs.len(), base.execs.first().map(steps));
+    }
+    if let Term::Panic(m) = &base.term {
+        // a generated program may deadlock, but it never panics
+        acc.violation("body-panicked", format!("a well-formed program panicked without any bound: {m}"), wit(json!(null)));
+    }
     if base.term != Term::Pass || base.execs.len() != 1 {
         acc.add("bodies_skipped_failing", 1);
         return;
